@@ -1,5 +1,5 @@
 """C17 -- length scales are physical lengths: they scale with the grid, not the field."""
-from contracts import lengthscale as ls, structure as sfc
+from contracts import collections as co, emulsions as em, lengthscale as ls, structure as sfc
 from pyvc.bounded import ContractSampling
 
 LEVEL = "other"
@@ -17,7 +17,8 @@ LEVEL_NOTE = ("ASSUMED: contract of get_structure_factor (C16) incl. DFT facts; 
               "minimize_scalar's result is determined by objective and bracket (covariant); sums are linear, argmax/min/max commute with a "
               "positive factor; locate_droplets finds the same number of droplets on a stretched grid; preconditions: the field is not constant, "
               "at least one droplet is detected (otherwise ZeroDivisionError, allowed only then); Cartesian grids; A-FP")
-CONTRACTS = [ls.GetLengthScale().ident, sfc.StructureFactor().ident]
+# the droplet-counting method counts what locate_droplets keeps: the size filter and the overlap removal (with the grid's metric) are on its path
+CONTRACTS = [ls.GetLengthScale().ident, sfc.StructureFactor().ident, co.RemoveSmall().ident, em.PairwiseDistances().ident, em.RemoveOverlapping().ident]
 LEMMAS = ["structure-factor-normalisation-and-invariances"]
 CLAUSES = {"stretching the grid stretches the length scale (moment-based, droplet-counting: exactly)": "proved (relational obligations)",
            "peak-based: covariant to within the Fourier resolution": "proved modulo the assumed covariance of SmoothData1D / minimize_scalar; sampled",
